@@ -379,4 +379,6 @@ pub fn run(run: &Run) {
     exhaustive_part(run);
     random_part(run);
     corruption_part(run);
+    // thorough: the same quick workload once more under the AddressSanitizer build (memory errors in the library or its dependencies)
+    if !run.quick() { crate::lanes::asan_rerun(run); }
 }
